@@ -207,10 +207,12 @@ pub fn closure_stream(rep: &mut Report, rng: &mut Rng, n: usize) {
     use egglog_numeric_id::NumericId;
     use std::panic::{catch_unwind, AssertUnwindSafe};
     let mut lean_lines: Vec<String> = vec![]; let mut lean_want: Vec<(BTreeSet<u32>, BTreeSet<u32>, String)> = vec![];
+    // hash-cons table before / after every rebuild pass, for the Lean `rebuildPass` (C14_rebuild_*)
+    let mut hc_lines: Vec<String> = vec![]; let mut hc_want: Vec<(String, String)> = vec![];
     for case in 0..n {
         let nbase = 3 + rng.below(5); let depth = 1 + rng.below(5); let per = 1 + rng.below(4); let rounds = 1 + rng.below(3);
         let seed_case = rng.next();
-        let res = catch_unwind(AssertUnwindSafe(|| -> Result<Vec<(String, BTreeSet<u32>, BTreeSet<u32>, String)>, String> {
+        let res = catch_unwind(AssertUnwindSafe(|| -> Result<Vec<(String, BTreeSet<u32>, BTreeSet<u32>, String, String, String)>, String> {
             let mut rng = Rng::new(seed_case);
             let mut out = vec![];
             let mut db = Database::new();
@@ -252,6 +254,11 @@ pub fn closure_stream(rep: &mut Report, rng: &mut Rng, n: usize) {
                 // rebuild until nothing changes, as the e-graph does; every single rebuild is checked
                 for _pass in 0..8 {
                     let before = snapshot(&db);
+                    // the canonical id of every id the table mentions, read from the union-find table itself
+                    let show_tab = |m: &BTreeMap<u32, Vec<u32>>| -> String { if m.is_empty() { "-".into() } else { m.iter().map(|(id, c)| format!("{id}:{}", c.iter().map(|x| x.to_string()).collect::<Vec<_>>().join("."))).collect::<Vec<_>>().join(";") } };
+                    let mentioned: BTreeSet<u32> = before.values().flatten().copied().collect();
+                    let finds: Vec<String> = mentioned.iter().filter_map(|x| db.get_table(uf).get_row(&[Value::new(*x)]).map(|r| format!("{x}>{}", r.vals[1].rep()))).collect();
+                    let hc_line = format!("hc rebuild {} {}", if finds.is_empty() { "-".into() } else { finds.join(",") }, show_tab(&before));
                     let summary = db.rebuild_containers(uf);
                     db.merge_all();
                     let after = snapshot(&db);
@@ -262,7 +269,7 @@ pub fn closure_stream(rep: &mut Report, rng: &mut Rng, n: usize) {
                     for (id, c) in &after { if c.iter().any(|x| dirty.contains(x)) && !dirty.contains(id) { return Err(format!("container #{id} = {c:?} holds a dirty id but is not itself reported dirty {dirty:?}: the closure stopped short | {hist}")); } }
                     let edges: Vec<String> = after.iter().flat_map(|(id, c)| { let mut cs: Vec<u32> = c.clone(); cs.sort(); cs.dedup(); cs.into_iter().map(move |x| format!("{x}>{id}")) }).collect();
                     let line = format!("cl close {} {} {}", after.len() + nbase + 2, if edges.is_empty() { "-".into() } else { edges.join(",") }, if direct.is_empty() { "-".into() } else { direct.iter().map(|x| x.to_string()).collect::<Vec<_>>().join(",") });
-                    out.push((line, direct.clone(), dirty.clone(), hist.clone()));
+                    out.push((line, direct.clone(), dirty.clone(), hist.clone(), hc_line, show_tab(&after)));
                     if !summary.changed() { break; }
                 }
             }
@@ -272,12 +279,24 @@ pub fn closure_stream(rep: &mut Report, rng: &mut Rng, n: usize) {
         match res {
             Err(e) => rep.violate("property", "c14-closure-panic", format!("container rebuild panicked (case {case}): {}", e.downcast_ref::<String>().cloned().or_else(|| e.downcast_ref::<&str>().map(|s| s.to_string())).unwrap_or_default()), json!({"case_seed": seed_case, "nbase": nbase, "depth": depth, "per": per, "rounds": rounds})),
             Ok(Err(what)) => rep.violate("property", "c14-dirty-closure-incomplete", what, json!({"case_seed": seed_case, "nbase": nbase, "depth": depth, "per": per, "rounds": rounds})),
-            Ok(Ok(items)) => for (line, direct, dirty, hist) in items {
+            Ok(Ok(items)) => for (line, direct, dirty, hist, hc_line, hc_after) in items {
+                hc_lines.push(hc_line); hc_want.push((hc_after, hist.clone()));
                 if !direct.is_empty() && depth >= 3 && dirty.len() > direct.len() + 1 { rep.note_nontrivial(&(&hist, "deep")); }
                 if !direct.is_empty() { rep.count("closure_rebuilds_with_in_place_changes", 1); }
                 if dirty.len() > direct.len() { rep.count("closure_rebuilds_with_ancestors_added", 1); }
                 lean_lines.push(line); lean_want.push((direct, dirty, hist));
             },
+        }
+    }
+    // the real table after the pass must be the model's `rebuildPass` of the table before it
+    match run_driver(&hc_lines) {
+        Err(e) => rep.violate("correspondence", "driver-failure", e, json!({})),
+        Ok(m) => for (i, (after, hist)) in hc_want.iter().enumerate() {
+            rep.traces_vs_model += 1;
+            let mut parts = m[i].split(' ');
+            let (tab, unions) = (parts.next().unwrap_or(""), parts.next().and_then(|x| x.parse::<usize>().ok()).unwrap_or(0));
+            if tab != after { rep.violate("correspondence", "c14-hashcons-rebuild-differs", format!("after `{}` the container table is `{after}`, the Lean rebuildPass (C14_rebuild_hashcons / _present / _unions_sound) gives `{tab}`", hc_lines[i]), json!({"history": hist, "line": hc_lines[i]})); }
+            else { rep.count("hashcons_rebuild_equal_to_model", 1); if unions > 0 { rep.count("hashcons_rebuilds_with_merged_containers", 1); } }
         }
     }
     match run_driver(&lean_lines) {
